@@ -242,6 +242,7 @@ NAMING = {
     "devices-equal-in-snake-case": ('version: "3"\nstruct M { a @0: u8, }\nstruct N { c @0: u16, }\nimpl can for M { id: 5, device: "Ecu", }\nimpl can for N { id: 6, device: "ecu", }\n', [("Ecu", "M", {"a": 7}, "07"), ("ecu", "N", {"c": 258}, "0201")]),
     "enumerators-equal-in-upper-case": ('version: "3"\nenum Unit { mV = 0, MV = 1, }\nstruct M { u @0: Unit, raw @1: u8, }\nimpl can for M { id: 12, device: "ecu", }\n', [("ecu", "M", {"u": 1, "raw": 171}, "5701")]),
     # enum and field names that start like the spelling of a built-in type (i..., u..., f32x): the field stays an unsigned enum
+    "enumerator-equals-an-enum-name-in-upper-case": ('version: "3"\nenum State { Ok = 0, Error = 1, }\nenum ERROR { None = 0, Overheat = 5, }\nstruct M { state @0: State, code @1: ERROR, temp @2: i12, }\nimpl can for M { id: 32, device: "ecu", }\n', [("ecu", "M", {"state": 1, "code": 5, "temp": -3}, "dbff")]),
     "enum-named-like-a-signed-type": ('version: "3"\nenum inverterState { Off = 0, Run = 2, Fault = 3, }\nenum u8state { A = 0, B = 1, }\nstruct M { st @0: inverterState, i16x @1: u8state, u @2: u5, }\nimpl can for M { id: 13, device: "ecu", }\n', [("ecu", "M", {"st": 3, "i16x": 1, "u": 9}, "4f")]),
     "message-leading-underscore": ('version: "3"\nstruct _2ndStatus { a @0: u8, b @1: i12, }\nstruct _ { c @0: u8, }\nimpl can for _2ndStatus { id: 10, device: "ecu", }\nimpl can for _ { id: 11, device: "ecu", }\n', [("ecu", "_2ndStatus", {"a": 7, "b": -3}, "07fd0f"), ("ecu", "_", {"c": 9}, "09")]),
     "message-underscore-vs-plain": ('version: "3"\nstruct Foo { a @0: u8, }\nstruct _Foo { b @0: u16, }\nimpl can for Foo { id: 20, device: "ecu", }\nimpl can for _Foo { id: 21, device: "ecu", }\n', [("ecu", "Foo", {"a": 7}, "07"), ("ecu", "_Foo", {"b": 258}, "0201")]),
